@@ -346,10 +346,9 @@ def run_bezier_sized(facts, out):
             if c3 and c3['name'] == 'len' and vd[1]['args']:
                 l3 = op_local(vd[1]['args'][0])
                 return _bz_origin(b, l3) if l3 is not None else None
-        elif vd and vd[0] == 'assign' and vd[1]['rv']['k'] in ('len', 'ptrmeta', 'unary'):
-            rv = vd[1]['rv']
-            pl = rv.get('pl') or (op_place(rv['op']) if 'op' in rv else None)
-            return _bz_origin(b, pl['l']) if pl is not None else None
+        elif vd and vd[0] == 'assign' and vd[1]['rv']['k'] == 'unop' and vd[1]['rv']['op'] == 'PtrMetadata':
+            l3 = op_local(vd[1]['rv']['a'])
+            return _bz_origin(b, l3) if l3 is not None else None
         return None
 
     def grown_inside(b, bpi, spi):
